@@ -36,6 +36,8 @@ type Q struct {
 	Toks  []Tok
 	Kind  string   // show_topics, show_partitions, describe, explain, select
 	Feats []string // clauses used, sorted
+	Punct bool     // GenEmbed: some name contains a keyword as a whole word set off by '.' or '-' (form punct)
+	EndKw string   // GenEmbed: the keyword spelled by the suffix of the statement's last identifier ("" = none)
 }
 
 func (q Q) String() string {
@@ -54,6 +56,8 @@ type builder struct {
 	toks  []Tok
 	feats map[string]bool
 	tight bool // next token is glued to the previous one
+	embed bool // GenEmbed: identifiers are (often) replaced by identifiers that contain a keyword
+	punct bool // an identifier of form punct was written
 }
 
 func (b *builder) ws() string {
@@ -109,8 +113,33 @@ var (
 
 func pick(rng *rand.Rand, l []string) string { return l[rng.Intn(len(l))] }
 
+// id chooses an identifier for an identifier site. Outside embed mode it is
+// exactly pick (same PRNG consumption, so Gen's statements are unchanged); in
+// embed mode every second identifier contains a keyword as prefix, suffix or infix.
+func (b *builder) id(l []string) string {
+	s := pick(b.rng, l)
+	if b.embed && b.rng.Intn(2) == 0 {
+		e, form := EmbedIdent(b.rng, "")
+		b.feat("kwid_" + form)
+		b.punct = b.punct || form == "punct"
+		return e
+	}
+	return s
+}
+
+// fixedID is id for a site where Gen always writes the same identifier.
+func (b *builder) fixedID(s string) string {
+	if b.embed && b.rng.Intn(2) == 0 {
+		e, form := EmbedIdent(b.rng, "")
+		b.feat("kwid_" + form)
+		b.punct = b.punct || form == "punct"
+		return e
+	}
+	return s
+}
+
 func (b *builder) colRef(withSource string) {
-	c := pick(b.rng, columns)
+	c := b.id(columns)
 	if withSource != "" && b.rng.Intn(2) == 0 {
 		b.add(ID, withSource)
 		b.tight = true
@@ -135,7 +164,13 @@ func (b *builder) jsonCall(fn string, src string) {
 	b.add(ID, "_value")
 	b.glue(PUNCT, ",")
 	b.glueNext()
-	b.add(STR, pick(b.rng, paths))
+	if b.embed && b.rng.Intn(3) == 0 {
+		e, form := EmbedIdent(b.rng, "")
+		b.punct = b.punct || form == "punct"
+		b.add(STR, "'$."+e+"'")
+	} else {
+		b.add(STR, pick(b.rng, paths))
+	}
 	b.glue(PUNCT, ")")
 }
 
@@ -169,11 +204,11 @@ func (b *builder) selectCol(src string, allowAgg bool) {
 	switch b.rng.Intn(4) {
 	case 0:
 		b.add(KW, "as")
-		b.add(ID, pick(b.rng, []string{"c1", "Total", "status_x", "v"}))
+		b.add(ID, b.id([]string{"c1", "Total", "status_x", "v"}))
 		b.feat("as")
 	case 1:
 		if b.toks[len(b.toks)-1].T == ")" {
-			b.add(ID, pick(b.rng, []string{"c2", "Cnt"}))
+			b.add(ID, b.id([]string{"c2", "Cnt"}))
 			b.feat("bare_alias")
 		}
 	}
@@ -184,10 +219,10 @@ func (b *builder) selectStmt() {
 	join := b.rng.Intn(3) == 0
 	var la, ra string
 	if join || b.rng.Intn(4) == 0 {
-		la = pick(b.rng, aliases[:4])
+		la = b.id(aliases[:4])
 	}
 	if join && b.rng.Intn(4) != 0 {
-		ra = pick(b.rng, aliases[4:])
+		ra = b.id(aliases[4:])
 	}
 	if b.rng.Intn(3) == 0 {
 		b.add(PUNCT, "*")
@@ -207,7 +242,7 @@ func (b *builder) selectStmt() {
 		}
 	}
 	b.add(KW, "from")
-	lt := pick(b.rng, Topics)
+	lt := b.id(Topics)
 	b.add(ID, lt)
 	if la != "" {
 		b.add(ID, la)
@@ -220,7 +255,7 @@ func (b *builder) selectStmt() {
 		}
 		b.add(KW, "join")
 		b.feat("join")
-		b.add(ID, pick(b.rng, Topics))
+		b.add(ID, b.id(Topics))
 		if ra != "" {
 			b.add(ID, ra)
 		}
@@ -291,7 +326,7 @@ func (b *builder) selectStmt() {
 				b.glue(PUNCT, ",")
 				b.glueNext()
 			}
-			b.add(ID, pick(b.rng, columns))
+			b.add(ID, b.id(columns))
 		}
 	}
 	if b.rng.Intn(4) == 0 {
@@ -301,7 +336,7 @@ func (b *builder) selectStmt() {
 			b.add(KW, "order")
 			b.add(KW, "by")
 		}
-		b.add(ID, "_ts")
+		b.add(ID, b.fixedID("_ts"))
 		b.feat("order")
 		switch b.rng.Intn(3) {
 		case 0:
@@ -357,7 +392,11 @@ func (b *builder) tsFilter() {
 // Gen returns one statement of the KafSQL dialect (every statement kind and
 // clause the parser knows).
 func Gen(rng *rand.Rand) Q {
-	b := &builder{rng: rng, feats: map[string]bool{}}
+	return genWith(&builder{rng: rng, feats: map[string]bool{}})
+}
+
+func genWith(b *builder) Q {
+	rng := b.rng
 	kind := ""
 	switch n := rng.Intn(20); {
 	case n == 0:
@@ -369,11 +408,11 @@ func Gen(rng *rand.Rand) Q {
 		b.add(KW, "show")
 		b.add(KW, "partitions")
 		b.add(KW, "from")
-		b.add(ID, pick(rng, Topics))
+		b.add(ID, b.id(Topics))
 	case n == 2:
 		kind = "describe"
 		b.add(KW, "describe")
-		b.add(ID, pick(rng, Topics))
+		b.add(ID, b.id(Topics))
 	case n < 6:
 		kind = "explain"
 		b.add(KW, "explain")
@@ -386,7 +425,7 @@ func Gen(rng *rand.Rand) Q {
 		b.glue(PUNCT, ";")
 		b.feat("semi")
 	}
-	q := Q{Toks: b.toks, Kind: kind}
+	q := Q{Toks: b.toks, Kind: kind, Punct: b.punct}
 	for f := range b.feats {
 		q.Feats = append(q.Feats, f)
 	}
@@ -664,5 +703,215 @@ func Noise(rng *rand.Rand, rs RuneSet, big bool) (string, string) {
 			"select * from t group by", "select * from t limit", "select * from t where", "select * from t where _partition", "select * from t where _partition =", "select * from t where _offset >=",
 			"select * from t where _partition = 99999999999", "select * from t _ts between '' and ''", "select * from t _ts >= ''", "select * from t _ts >= '", "select as from t", "select a as from t",
 			"select json_value(_value, '') from t", "select json_value(_value '$.a') from t", "SELECT\x00* FROM t"}), "fixed"
+	}
+}
+
+// ---- identifiers that contain keywords ----
+
+// Keywords lists every word the builder writes as a KW token (the two-word
+// clause keywords also as a whole). CheckKeywords verifies the list against the
+// statements actually generated.
+var Keywords = []string{"select", "from", "where", "join", "left", "on", "group", "by", "group by", "order", "order by", "limit", "last", "tail",
+	"within", "scan", "full", "as", "and", "between", "desc", "asc", "explain", "show", "topics", "partitions", "describe",
+	"count", "min", "max", "sum", "avg", "json_value", "json_query", "json_exists"}
+
+// SingleKeywords are the keywords that fit into one identifier.
+func SingleKeywords() []string {
+	var out []string
+	for _, k := range Keywords {
+		if !strings.Contains(k, " ") {
+			out = append(out, k)
+		}
+	}
+	return out
+}
+
+// CheckKeywords returns the KW token texts of q that Keywords does not list.
+func CheckKeywords(q Q) []string {
+	known := map[string]bool{}
+	for _, k := range Keywords {
+		known[k] = true
+	}
+	var missing []string
+	for _, t := range q.Toks {
+		if t.K == KW && !known[strings.ToLower(t.T)] {
+			missing = append(missing, t.T)
+		}
+	}
+	return missing
+}
+
+var (
+	// word characters only: the keyword is glued to them
+	embedHeads = []string{"x", "re", "de", "b", "sta", "order_", "my_", "t9", "_", "X", "Re", "7", "ab_c"}
+	embedTails = []string{"s", "age", "_id", "x", "9", "_", "ed", "S", "_2", "ing"}
+)
+
+// EmbedIdent returns an identifier that contains keyword kw ("" = a random
+// single-word keyword) as a proper prefix, suffix or infix of a longer word
+// (forms prefix/suffix/infix), or, rarely, as a whole word set off by '.' or '-'
+// inside a dotted/dashed name (form punct). One in four gets random letter case.
+func EmbedIdent(rng *rand.Rand, kw string) (string, string) {
+	s, name, _ := embedIdentForm(rng, kw, -1)
+	return s, name
+}
+
+func embedIdentForm(rng *rand.Rand, kw string, form int) (string, string, string) {
+	if kw == "" {
+		sk := SingleKeywords()
+		kw = sk[rng.Intn(len(sk))]
+	}
+	if form < 0 {
+		form = rng.Intn(13) / 4 // 0,1,2 four times each, 3 once
+	}
+	var s, name string
+	switch form {
+	case 0:
+		s, name = kw+pick(rng, embedTails), "prefix"
+	case 1:
+		s, name = pick(rng, embedHeads)+kw, "suffix"
+	case 2:
+		s, name = pick(rng, embedHeads)+kw+pick(rng, embedTails), "infix"
+	default:
+		name = "punct"
+		switch rng.Intn(4) {
+		case 0:
+			s = pick(rng, embedHeads) + "." + kw
+		case 1:
+			s = kw + "-" + pick(rng, embedTails)
+		case 2:
+			s = pick(rng, embedHeads) + "-" + kw
+		default:
+			s = pick(rng, embedHeads) + "." + kw + "." + pick(rng, embedTails)
+		}
+	}
+	if rng.Intn(4) == 0 {
+		s = flipWord(rng, s, rng.Intn(4))
+	}
+	return s, name, kw
+}
+
+// GenEmbed is Gen with identifiers (topics, aliases, columns, AS names, GROUP BY
+// and ORDER BY columns, JSON path members) that contain keywords. Every second
+// statement is also cut right after one of its identifiers that follow FROM, and
+// that last identifier is (3 of 4 times) one whose suffix spells a keyword, so
+// that statements and clauses END in such an identifier; a ';' may follow.
+func GenEmbed(rng *rand.Rand) Q {
+	b := &builder{rng: rng, feats: map[string]bool{}, embed: true}
+	q := genWith(b)
+	if rng.Intn(2) == 0 {
+		return q
+	}
+	from := -1
+	var cand []int
+	for i, t := range q.Toks {
+		if t.K == KW && strings.EqualFold(t.T, "from") && from < 0 {
+			from = i
+		}
+		if t.K == ID && from >= 0 {
+			cand = append(cand, i)
+		}
+	}
+	if len(cand) == 0 {
+		return q
+	}
+	cut := cand[rng.Intn(len(cand))]
+	if rng.Intn(3) == 0 {
+		cut = cand[len(cand)-1]
+	}
+	toks := append([]Tok(nil), q.Toks[:cut+1]...)
+	where := "id"
+	for i := cut - 1; i >= 0; i-- {
+		if toks[i].K == KW {
+			where = strings.ReplaceAll(strings.ToLower(toks[i].T), " ", "_")
+			break
+		}
+	}
+	feats := map[string]bool{"cut_after_" + where: true}
+	endKw := ""
+	if rng.Intn(4) != 0 {
+		toks[cut].T, _, endKw = embedIdentForm(rng, "", 1)
+		feats["end_kwid_suffix"] = true
+	}
+	if rng.Intn(3) == 0 {
+		pre := ""
+		if rng.Intn(3) == 0 {
+			pre = b.ws()
+		}
+		toks = append(toks, Tok{Pre: pre, T: ";", K: PUNCT})
+		feats["semi"] = true
+	}
+	// features of the part that was kept
+	for _, f := range q.Feats {
+		if strings.HasPrefix(f, "kwid_") || f == "semi" {
+			continue
+		}
+		feats[f] = true
+	}
+	out := Q{Toks: toks, Kind: q.Kind, EndKw: endKw, Punct: q.Punct}
+	for f := range feats {
+		out.Feats = append(out.Feats, f)
+	}
+	sort.Strings(out.Feats)
+	return out
+}
+
+// EmbedNoise returns texts in which a keyword occurs only glued into a longer
+// word: a statement one of whose keyword tokens is replaced by an identifier
+// that contains it (optionally cut right there), a statement followed by a
+// dangling word that ends in / starts with a (one- or two-word) keyword, or a
+// few words of that kind alone.
+func EmbedNoise(rng *rand.Rand) (string, string) {
+	glued := func(kw string) string {
+		switch rng.Intn(3) {
+		case 0:
+			return pick(rng, embedHeads) + kw
+		case 1:
+			return kw + pick(rng, embedTails)
+		default:
+			return pick(rng, embedHeads) + kw + pick(rng, embedTails)
+		}
+	}
+	switch rng.Intn(4) {
+	case 0, 1:
+		q := Gen(rng)
+		var kws []int
+		for i, t := range q.Toks {
+			if t.K == KW {
+				kws = append(kws, i)
+			}
+		}
+		toks := append([]Tok(nil), q.Toks...)
+		i := kws[rng.Intn(len(kws))]
+		toks[i].T = glued(toks[i].T)
+		toks[i].K = ID
+		how := "kw_glued"
+		if rng.Intn(2) == 0 {
+			toks = toks[:i+1]
+			how = "kw_glued_cut"
+		}
+		return Q{Toks: toks}.String(), how
+	case 2:
+		q := Gen(rng).String()
+		kw := Keywords[rng.Intn(len(Keywords))]
+		w := pick(rng, embedHeads) + kw
+		if rng.Intn(4) == 0 {
+			w = kw + pick(rng, embedTails)
+		}
+		if rng.Intn(4) == 0 {
+			w = strings.ToUpper(w)
+		}
+		return strings.TrimRight(q, "; \t\n") + pick(rng, []string{" ", ", ", " group by ", " order by ", " join ", " on ", " as "}) + w + pick(rng, []string{"", "", "", ";", " ;"}), "dangling_glued"
+	default:
+		n := 1 + rng.Intn(4)
+		var sb strings.Builder
+		sb.WriteString(pick(rng, []string{"select ", "select * ", "explain select ", "select * from t ", "show partitions ", "describe ", ""}))
+		for k := 0; k < n; k++ {
+			if k > 0 {
+				sb.WriteString(pick(rng, []string{" ", ",", ", "}))
+			}
+			sb.WriteString(glued(Keywords[rng.Intn(len(Keywords))]))
+		}
+		return sb.String(), "glued_words"
 	}
 }
